@@ -236,3 +236,101 @@ func (r *Run) edgesToLabel(re string) []*Edge {
 	rx := regexp.MustCompile(re)
 	return r.P.CG().SitesByLabel(func(l string) bool { return rx.MatchString(l) })
 }
+
+// ifEdgesFor returns the (If, successor index) pairs of fn whose edge establishes an atom matching re.
+func (P *Prog) ifEdgesFor(fn *ssa.Function, re string) []struct {
+	B *ssa.BasicBlock
+	I int
+} {
+	rx := regexp.MustCompile(re)
+	var out []struct {
+		B *ssa.BasicBlock
+		I int
+	}
+	for _, b := range fn.Blocks {
+		if len(b.Instrs) == 0 || len(b.Succs) != 2 {
+			continue
+		}
+		ifi, ok := b.Instrs[len(b.Instrs)-1].(*ssa.If)
+		if !ok {
+			continue
+		}
+		t, pos := P.condAtom(ifi.Cond, ifi)
+		for i := 0; i < 2; i++ {
+			p := pos
+			if i == 1 {
+				p = !pos
+			}
+			if rx.MatchString(Atom{T: t, Pos: p}.Key()) {
+				out = append(out, struct {
+					B *ssa.BasicBlock
+					I int
+				}{b, i})
+			}
+		}
+	}
+	return out
+}
+
+// mustFollowEdge: on every path from each edge establishing atom `re` to a Return (or to an
+// instruction matching until), an instruction matching pred is executed. Missing edge = violation.
+func (r *Run) mustFollowEdge(rule, key string, fn *ssa.Function, re string, pred, until func(ssa.Instruction) bool, what string) bool {
+	edges := r.P.ifEdgesFor(fn, re)
+	if len(edges) == 0 {
+		r.Viol(rule, key, r.P.Pos(fn.Pos()), "no branch establishing "+re+" exists in "+short(fn.String())+" any more")
+		return false
+	}
+	ok := true
+	for _, e := range edges {
+		tgt := func(in ssa.Instruction) bool { return isReturn(in) || (until != nil && until(in)) }
+		reach, w, path := ReachFromBlock(e.B.Succs[e.I], tgt, pred, nil)
+		if reach {
+			ok = false
+			r.Viol(rule, key, r.P.InstrPos(w), "a path from the branch «"+re+"» reaches "+r.P.InstrPos(w)+" without "+what+": "+r.P.blockPathString(path))
+		}
+	}
+	if ok {
+		r.OK(rule, key, r.P.Pos(fn.Pos()), "every path after the branch executes "+what)
+	}
+	return ok
+}
+
+// loopBodyAlways: every path from instruction `after` to the next execution of `until` (or a Return) executes pred.
+func (r *Run) loopBodyAlways(rule, key string, after ssa.Instruction, pred, until func(ssa.Instruction) bool, what string) bool {
+	fn := after.Parent()
+	tgt := func(in ssa.Instruction) bool { return isReturn(in) || until(in) }
+	reach, w, path := ReachWithout(fn, after, tgt, pred, nil)
+	if reach {
+		r.Viol(rule, key, r.P.InstrPos(w), "a path from "+r.P.InstrPos(after)+" reaches "+r.P.InstrPos(w)+" without "+what+": "+r.P.blockPathString(path))
+		return false
+	}
+	r.OK(rule, key, r.P.InstrPos(after), "every path executes "+what)
+	return true
+}
+
+// neverAfter: both calls exist and no path leads from a call to `second` to a call to `first`
+// (first is never executed after second).
+func (r *Run) neverAfter(rule, key string, fn *ssa.Function, first, second string) bool {
+	fs, ss := CallsIn(fn, first), CallsIn(fn, second)
+	if len(fs) == 0 || len(ss) == 0 {
+		missing := first
+		if len(fs) > 0 {
+			missing = second
+		}
+		r.Viol(rule, key+"/has:"+missing, r.P.Pos(fn.Pos()), short(fn.String())+" does not call "+missing)
+		return false
+	}
+	ok := true
+	isFirst := CallTo(first)
+	for _, s := range ss {
+		reach, w, path := ReachWithout(fn, s, isFirst, nil, nil)
+		if reach {
+			ok = false
+			r.Viol(rule, key+"/never:"+first+"-after-"+second, r.P.InstrPos(w), first+" can execute after "+second+": "+r.P.blockPathString(path))
+		}
+	}
+	if ok {
+		r.OK(rule, key+"/never:"+first+"-after-"+second, r.P.InstrPos(ss[0]), first+" is never executed after "+second)
+	}
+	return ok
+}
